@@ -374,6 +374,7 @@ def run_bounded(b, tier, use_cache):
     if use_cache and os.path.exists(cp):
         try:
             raw = json.load(open(cp)); raw["cached"] = True
+            if "out" not in raw: raw = None
         except Exception: raw = None
     if raw is None:
         t0 = time.time()
